@@ -15,7 +15,7 @@ from .. import rules
 from ..rules import (callee_is, object_of, field_name, call_args, mentions_field, mentions_call,
                      mentions_var, loops_in, loop_header, enclosing_loops)
 from ..facts import children, strip_all_casts, walk, CALL_KINDS, AnalysisBroken
-from ..boolshape import Interp, NeedAtom, Unsupported
+from ..boolshape import Interp, NeedAtom, Unsupported, ContinueLoop
 from . import c03, c04
 
 BACKSLASH, SQ, DQ, SPACE, OTHER = 92, 39, 34, 32, 97
@@ -88,113 +88,143 @@ def r1(chk, prog):
                       % len(g.params), g.loc())
 
 
-def splitter_table(chk, f):
-    """abstract evaluation of one loop iteration of splitString for every (state, class)"""
+def scanner_vars(f, loop):
+    """the local scalars declared before the scanner loop (its state), with the Interp that initialised them"""
+    names = []
+    for n in children(f.body):
+        if n is loop:
+            break
+        if n.get('k') == 'DeclStmt':
+            for d in n['decls']:
+                t = (d.get('t') or '')
+                if t in ('bool', 'char', 'int', 'unsigned int', 'unsigned char', 'unsigned long', 'long'):
+                    names.append(d['name'])
+    return names
+
+
+def ref_step(state, ch):
+    """the reference transducer: state = (quote or None, escaped, word empty); returns (state', events)"""
+    quote, esc, empty = state
+    if esc:
+        return (quote, False, False), [('append', ch)]
+    if ch == BACKSLASH:
+        return (quote, True, empty), []
+    if quote is not None:
+        if ch == quote:
+            return (None, False, empty), []
+        return (quote, False, False), [('append', ch)]
+    if ch in (SQ, DQ):
+        return (ch, False, empty), []
+    if ch == SPACE:
+        return (None, False, True), ([] if empty else [('emit',)])
+    return (None, False, False), [('append', ch)]
+
+
+def explore_scanner(chk, f):
+    """lock-step exploration of the scanner loop of splitString against the reference transducer over the character
+    classes: every reachable pair (scanner state, reference state) is stepped with every class and must produce
+    the same output events.  The scanner state is whatever local scalars the function keeps (no names assumed)."""
     loops = loops_in(f)
     chk.require(len(loops) == 1 and loops[0].get('k') == 'CXXForRangeStmt', 'splitString: scanner loop not found')
     loop = loops[0]
     body = children(loop)[2]
     cvar = children(loop)[1]['decls'][0]['name']
-    names = {}
-    for n in f.walk():
-        if n.get('k') == 'DeclStmt':
-            for d in n['decls']:
-                names[d['name']] = d.get('t')
-    need = {'currWord', 'usedQuoteChar', 'inQuote', 'gotBackslash'}
-    chk.require(need <= set(names), 'splitString: scanner state variables changed: %s' % sorted(names))
-    table = {}
-    for bs in (0, 1):
-        for inq in (0, 1):
-            for q in (SQ, DQ):
-                if not inq and q == DQ:
-                    continue
-                for cname, ch in CLASSES.items():
-                    for empty in (0, 1):
-                        events = []
+    names = scanner_vars(f, loop)
+    chk.require(names, 'splitString: no scanner state found')
 
-                        def cb_append(it, node):
-                            a = call_args(node)
-                            events.append(('append', it.ev(a[-1])))
-                            return 0
+    def run(locals_in, empty, stmts):
+        events = []
 
-                        def cb_push(it, node):
-                            events.append(('emit',))
-                            return 0
+        def cb_append(it, node):
+            a = call_args(node)
+            events.append(('append', it.ev(a[-1])))
+            return 0
 
-                        def cb_clear(it, node):
-                            events.append(('clear',))
-                            return 0
+        def cb_push(it, node):
+            events.append(('emit',))
+            return 0
 
-                        def cb_empty(it, node):
-                            return empty
-                        env = {cvar: ch, 'gotBackslash': bs, 'inQuote': inq, 'usedQuoteChar': q if inq else 45}
-                        it = Interp(f, env, opaque_ok=False,
-                                    callbacks={'append': cb_append, 'push_back': cb_push, 'clear': cb_clear,
-                                               'empty': cb_empty})
-                        it.locals.update(env)
-                        try:
-                            it.stmt(body)
-                        except (NeedAtom, Unsupported) as e:
-                            raise AnalysisBroken('splitString body not interpretable: %s' % (e,))
-                        st = {k: it.locals.get(k, it.env.get(k)) for k in ('gotBackslash', 'inQuote', 'usedQuoteChar')}
-                        table[(bs, inq, q if inq else None, cname, empty)] = (events, st)
-    return table
+        def cb_clear(it, node):
+            events.append(('clear',))
+            return 0
+
+        def cb_empty(it, node):
+            e = empty
+            for ev in events:
+                e = 0 if ev[0] == 'append' else (1 if ev[0] == 'clear' else e)
+            return e
+
+        def cb_length(it, node):
+            return 0 if cb_empty(it, node) else 1
+        it = Interp(f, dict(locals_in), opaque_ok=False,
+                    callbacks={'append': cb_append, 'push_back': cb_push, 'clear': cb_clear, 'empty': cb_empty,
+                               'length': cb_length, 'size': cb_length, 'operator+=': cb_append})
+        it.locals.update(locals_in)
+        try:
+            for st in stmts:
+                it.stmt(st)
+        except ContinueLoop:
+            pass                 # the iteration ends here
+        except (NeedAtom, Unsupported) as e:
+            raise AnalysisBroken('splitString not interpretable: %s' % (e,))
+        return it, events
+    # initial scanner state from the declarations
+    decls = []
+    for n in children(f.body):
+        if n is loop:
+            break
+        if n.get('k') == 'DeclStmt' and any(d['name'] in names for d in n['decls']):
+            decls.append(n)
+    it0, _ = run({}, 1, decls)
+    init = tuple(it0.locals.get(v, it0.env.get(v, 0)) for v in names)
+    start = (init, (None, False, True))
+    seen = {start: ()}
+    todo = [start]
+    mismatches = []
+    steps = 0
+    while todo and len(seen) < 5000 and not mismatches:
+        impl, ref = todo.pop(0)
+        for cname, ch in CLASSES.items():
+            steps += 1
+            env = dict(zip(names, impl))
+            env[cvar] = ch
+            it, events = run(env, 1 if ref[2] else 0, [body])
+            out = [e for e in events if e[0] != 'clear']
+            # an emit must be followed by clearing the word
+            cleared = all(('clear',) in events[i + 1:] for i, e in enumerate(events) if e[0] == 'emit')
+            ref2, want = ref_step(ref, ch)
+            path = seen[(impl, ref)] + (cname,)
+            if out != want or not cleared:
+                mismatches.append('after the characters [%s] the scanner %s, the reference %s' % (
+                    ', '.join(path), describe(out, cleared), describe(want, True)))
+                break
+            nxt = (tuple(it.locals.get(v, it.env.get(v, 0)) for v in names), ref2)
+            if nxt not in seen:
+                seen[nxt] = path
+                todo.append(nxt)
+    return names, len(seen), steps, mismatches
+
+
+def describe(events, cleared):
+    if not events:
+        return 'outputs nothing'
+    txt = []
+    for e in events:
+        txt.append('appends %r' % chr(e[1]) if e[0] == 'append' and isinstance(e[1], int) and 0 < e[1] < 128 else
+                   ('ends the word' if e[0] == 'emit' else str(e)))
+    return ', '.join(txt) + ('' if cleared else ' (without clearing it)')
 
 
 def r2(chk, prog):
     fs = [f for f in prog.functions if f.short == 'splitString' and 'arg_string_2_array' in f.file]
     chk.require(fs, 'splitString not found')
     f = fs[0]
-    table = splitter_table(chk, f)
-    chk.samples.append({'splitter_table_rows': len(table)})
-    bad = {k: [] for k in 'abcde'}
-    for (bs, inq, q, cname, empty), (events, st) in table.items():
-        ch = CLASSES[cname]
-        app = [e for e in events if e[0] == 'append']
-        emits = [e for e in events if e[0] == 'emit']
-        row = 'state(bs=%d,quote=%s) char=%s empty=%d -> %s %s' % (bs, chr(q) if q else '-', cname, empty, events, st)
-        if bs:
-            # (a) after a backslash ANY character is taken literally and the previous state is resumed
-            if not (app == [('append', ch)] and not emits and st['gotBackslash'] == 0 and st['inQuote'] == inq):
-                bad['a'].append(row)
-            continue
-        if not inq:
-            if cname == 'other':
-                # (b) plain + ordinary character: appended, state unchanged
-                if not (app == [('append', ch)] and not emits and st['inQuote'] == 0 and st['gotBackslash'] == 0):
-                    bad['b'].append(row)
-            elif cname == 'space':
-                # (c) plain + space: ends a non-empty word, appends nothing
-                want_emit = 0 if empty else 1
-                if not (not app and len(emits) == want_emit and (empty or ('clear',) in events) and
-                        st['inQuote'] == 0 and st['gotBackslash'] == 0):
-                    bad['c'].append(row)
-            elif cname == 'backslash':
-                # (e) plain + backslash: nothing appended, escape pending
-                if not (not app and not emits and st['gotBackslash'] == 1 and st['inQuote'] == 0):
-                    bad['e'].append(row)
-            else:
-                # plain + quote: opens a quote of that kind, nothing appended
-                if not (not app and not emits and st['inQuote'] == 1 and st['usedQuoteChar'] == ch):
-                    bad['e'].append(row)
-        else:
-            # (d) inside a quote: everything except the active quote and backslash is appended
-            if ch == q:
-                if not (not app and not emits and st['inQuote'] == 0):
-                    bad['d'].append(row)
-            elif cname == 'backslash':
-                if not (not app and not emits and st['gotBackslash'] == 1 and st['inQuote'] == 1):
-                    bad['d'].append(row)
-            else:
-                if not (app == [('append', ch)] and not emits and st['inQuote'] == 1 and st['usedQuoteChar'] == q):
-                    bad['d'].append(row)
-    texts = {'a': 'after a backslash any character is appended literally and the previous state resumes',
-             'b': 'an ordinary character outside quotes is appended',
-             'c': 'an unescaped blank ends a non-empty word and is not part of any word',
-             'd': 'inside quotes every character except the active quote and backslash is appended',
-             'e': 'backslash and quote characters outside quotes only change the scanner state'}
-    for k in 'abcde':
-        chk.check(not bad[k], 'R2', f.name, texts[k], f.loc(), '; '.join(bad[k][:2]))
+    names, n_states, steps, mismatches = explore_scanner(chk, f)
+    chk.samples.append({'scanner_state_variables': names, 'reachable_product_states': n_states, 'steps': steps})
+    chk.check(not mismatches, 'R2', f.name, 'the scanner is equivalent to the reference splitter (backslash escapes '
+              'the next character everywhere, quotes group, an unquoted blank ends a non-empty word) on every '
+              'reachable state for every character class', f.loc(), '; '.join(mismatches[:2]))
+    chk.require(n_states >= 4, 'scanner exploration reached only %d states' % n_states)
     # the word in progress is emitted at the end of the string
     cfg = f.cfg
     loop = loops_in(f)[0]
@@ -227,15 +257,16 @@ def run(chk):
     chk.explanation = (
         'Same-path rules (must-pass-through / who-may-call / dominance) for the file and environment readers and for '
         'evalArgumentString(); the scanner of splitString() is evaluated abstractly (Engine B interpreter with event '
-        'callbacks) for all 60 combinations of scanner state x character class x word-empty, and the resulting '
-        'transition table is compared with the facts from which split( join( escape( ws))) == ws follows for '
-        'backslash-escaping; the finite table check is valid for all strings. Capacity of the generated argv by '
+        'callbacks) as a finite-state transducer over the character classes {backslash, single quote, double quote, '
+        'blank, other} and explored in lock-step with a reference splitter from the initial state: every reachable '
+        'pair of states must produce the same output events for every class (a bisimulation, valid for all strings; '
+        'no variable names are assumed), from which split( join( escape( ws))) == ws follows for backslash-escaping. Capacity of the generated argv by '
         'Engine C (shared with C04). Not decided: other quoting disciplines, value equality between sources.')
     chk.assumptions = ['std::string::append/push_back/clear behave as documented',
                        'the round-trip argument is for words without NUL characters, escaped by prefixing backslash, '
                        'quote and blank characters with a backslash']
     chk.rule('R1', 'file / environment / string sources use the same evaluation path as argv', 8)
-    chk.rule('R2', 'splitter transition table implies the round trip for backslash escaping', 8)
+    chk.rule('R2', 'the splitter is equivalent to the reference transducer (implies the round trip for backslash escaping)', 4)
     chk.rule('R3', 'override instead of cardinality error; generated argv capacity', 8)
     r1(chk, prog)
     r2(chk, prog)
